@@ -66,9 +66,12 @@ b64decode(const char *in, size_t l, string *out)
 			}
 
 			if (((i + j) < l) && (in[i + j] != B64PAD)) {
-				char *c;
+				const char *c = NULL;
 
-				c = strchr(b64alpha, in[i + j]);
+				/* strchr() would also match the '\0' that terminates b64alpha,
+				 * which would make a 0-byte in the input the digit 64 */
+				if (in[i + j] != '\0')
+					c = strchr(b64alpha, in[i + j]);
 
 				if (!c) {
 					free(out->s);
